@@ -14,7 +14,7 @@ func init() {
 		ID:          "C18",
 		Title:       "Concurrent use: snapshot-isolated reads and no data races",
 		Technique:   "static analysis: write-effect rule over every package-level variable (stores, stores through loaded references, address handed to a callee), escape/pairing rule for pooled parser instances, may-write-field reachability from the read entry points over the call graph, lockset rule for DbImpl.View; pool rule for every sync.Pool user incl. defer-spilled results; restore under the write lock; View resolved through function-value flow",
-		LevelText:   "Necessary conditions for the three things the statement names: (1) no package-level variable of ast/boltz/objectz/zitiql is written after init except through sync/atomic types; (2) pooled lexer/parser instances are returned to their pool, never escape, and all per-call parse state is freshly allocated; (3) no function reachable from the query/lookup entry points writes a field of the shared store, index, symbol or link-collection objects; (4) View runs the callback inside a bolt read transaction under the reload read-lock. Snapshot isolation itself is bbolt's MVCC and general race freedom is a dynamic property: not decided. Applies the pool rule to every function that takes an object out of a sync.Pool (nothing loaded from it may be returned, also through a result slot read back after rundefers); the restore sequence runs under the write lock. Added later: no unsafe string/slice conversion of memory that belongs to bolt (NOUNSAFE); a typed query object is not shared through a package-level cache and mutated (SHAREDINSTANCE). Added in rounds 8-9: a snapshot taken inside a read transaction is copied through that transaction (SNAPSHOT cross-listed); package-level maps handed out are shared instances too (SHAREDINSTANCE). Added in round 10: the map a copy-on-write map hands out is only read (COWMAP). Added in round 11: an exported lookup does not rearrange a slice parameter in place (ARGMUTATE).",
+		LevelText:   "Necessary conditions for the three things the statement names: (1) no package-level variable of ast/boltz/objectz/zitiql is written after init except through sync/atomic types; (2) pooled lexer/parser instances are returned to their pool, never escape, and all per-call parse state is freshly allocated; (3) no function reachable from the query/lookup entry points writes a field of the shared store, index, symbol or link-collection objects; (4) View runs the callback inside a bolt read transaction under the reload read-lock. Snapshot isolation itself is bbolt's MVCC and general race freedom is a dynamic property: not decided. Applies the pool rule to every function that takes an object out of a sync.Pool (nothing loaded from it may be returned, also through a result slot read back after rundefers); the restore sequence runs under the write lock. Added later: no unsafe string/slice conversion of memory that belongs to bolt (NOUNSAFE); a typed query object is not shared through a package-level cache and mutated (SHAREDINSTANCE). Added in rounds 8-9: a snapshot taken inside a read transaction is copied through that transaction (SNAPSHOT cross-listed); package-level maps handed out are shared instances too (SHAREDINSTANCE). Added in round 10: the map a copy-on-write map hands out is only read (COWMAP). Added in round 11: an exported lookup does not rearrange a slice parameter in place (ARGMUTATE). Added in round 13: the result of appending to a slice held in a field of a shared object is stored back into that field only (ALIASAPPEND).",
 		LevelNote:   "Trusted: go/types, x/tools SSA, name-and-shape CHA (over-approximates callees: sound for may-write), sync/atomic/sync.Pool semantics, bbolt MVCC.",
 		DesignRef:   "DESIGN.md C18",
 		Explanation: "GLOBALS sites: every package-level variable of the four packages (generated parser tables excluded: guarded by sync.Once in generated code). READPATH sites: every function reachable from the listed read entry points.",
